@@ -77,14 +77,16 @@ pub fn validate_bonding_for_current_epoch(deps: &DepsMut, env: &Env) -> Result<(
     )?;
 
     let current_epoch = epoch_response.epoch;
-    let current_time = env.block.time.seconds();
-    pub const DAY_IN_SECONDS: u64 = 86_400u64;
+    // compared in nanoseconds: with whole seconds a bond up to a second AFTER the next epoch became due was still accepted,
+    // and was then included in the snapshot of an epoch that had started before it
+    let current_time = env.block.time.nanos();
+    pub const DAY_IN_NANOSECONDS: u64 = 86_400_000_000_000u64;
 
     // if the current time is more than a day after the epoch start time, then it means the latest
     // epoch has not been created and thus, prevent users from bonding/unbonding to avoid global_index
     // timestamp issues when querying the weight.
     if current_epoch.id != Uint64::zero()
-        && current_time - current_epoch.start_time.seconds() > DAY_IN_SECONDS
+        && current_time - current_epoch.start_time.nanos() > DAY_IN_NANOSECONDS
     {
         return Err(ContractError::NewEpochNotCreatedYet {});
     }
